@@ -4,6 +4,6 @@ go 1.21
 
 require github.com/utreexo/utreexo v0.0.0
 
-require golang.org/x/exp v0.0.0-20220414153411-bcd21879b8fd // indirect
+require golang.org/x/exp v0.0.0-20220414153411-bcd21879b8fd
 
 replace github.com/utreexo/utreexo => /repo
